@@ -5,7 +5,7 @@
    all answers of the two oracles (graph.ShortenFunctionName, filepath.Clean).
    [stacks_of] is the model of Report.Stacks (M_Stacks); [expected_keys], [stack_matches],
    [first_index], [self_sum], [sum_values] are the specification (S_Stacks). *)
-From PV Require Import M_Stacks S_Stacks L_Stacks.
+From PV Require Import M_Stacks S_Stacks L_Stacks M_Handoff S_Handoff L_Handoff.
 Open Scope string_scope.
 Open Scope Z_scope.
 Open Scope list_scope.
@@ -118,6 +118,33 @@ Theorem stacks_repeatable : forall shorten clean os p,
 Proof. exact stacks_calls_lemma. Qed.
 Print Assumptions stacks_repeatable.
 
+(* -- the JSON hand-off to the page ("so the client never dereferences a missing element") --
+   stackView marshals with json.Marshal (HTML escaping on) and copies the bytes into an inline script
+   element.  A JSON string literal so encoded never contains "<", whatever the name ... *)
+Theorem json_string_html_no_lt : forall s, no_lt (json_string_html s) = true.
+Proof. exact json_string_html_no_lt_lemma. Qed.
+Print Assumptions json_string_html_no_lt.
+
+(* ... and a script text made of pieces without "<" (JSON punctuation, numbers, such literals)
+   followed by the end tag is delimited by the HTML tokenizer exactly where the server ended it, so
+   the client receives the whole call, for all names, files and whatever follows on the page *)
+Theorem script_element_intact : forall t after, no_lt t = true ->
+  script_data_end (t ++ "</script>" ++ after) = Some (String.length t).
+Proof. exact script_intact_lemma. Qed.
+Print Assumptions script_element_intact.
+
+(* a leading text without "<" only moves the offset (the harness ships its length, not its bytes) *)
+Theorem script_end_skips_text_without_lt : forall t rest, no_lt t = true ->
+  script_data_end (t ++ rest) = script_data_end_from (String.length t) rest.
+Proof. exact script_end_skip_lemma. Qed.
+Print Assumptions script_end_skips_text_without_lt.
+
+Theorem handoff_delivers_whole_call : forall pieces after,
+  Forall (fun x => no_lt x = true) pieces ->
+  script_delivers (concat_str pieces ++ "</script>" ++ after) (String.length (concat_str pieces)) = true.
+Proof. exact script_delivers_lemma. Qed.
+Print Assumptions handoff_delivers_whole_call.
+
 (* the model walks frames in the order the specification describes them (Go's two descending loops
    with "inlined := j != len-1" = outermost line first, the others flagged) *)
 Theorem loops_visit_spec_frames : forall p s, sample_lines p s = sample_frames p s.
@@ -156,4 +183,21 @@ Example ex_places :
   map so_places (ss_sources ex_R) = [[(0, 0); (1, 0); (2, 0)]; [(0, 1)]; [(0, 3)]; [(1, 1)]]%nat.
 Proof. vm_compute. reflexivity. Qed.
 Example ex_checker_accepts : check_stackset ex_opts ex_profile 0 ex_R = true.
+Proof. vm_compute. reflexivity. Qed.
+
+(* hand-off examples: the encoder escapes what would end the script; without HTML escaping (the
+   encoder the model does NOT use) the tokenizer cuts the element inside the literal; the escaped
+   states: after "<!--<script>" an end tag does not close the element *)
+Example ex_json_string : json_string_html "a</script>&" = (dq ++ "a" ++ bs ++ "u003c/script" ++ bs ++ "u003e" ++ bs ++ "u0026" ++ dq)%string.
+Proof. vm_compute. reflexivity. Qed.
+Example ex_cut_without_html_escaping :
+  script_data_end ("f(" ++ json_string false "a</ScRiPt >b" ++ ");</script>") = Some 4%nat.
+Proof. vm_compute. reflexivity. Qed.
+Example ex_intact_with_html_escaping :
+  script_data_end ("f(" ++ json_string_html "a</ScRiPt >b" ++ ");</script>")
+  = Some (String.length ("f(" ++ json_string_html "a</ScRiPt >b" ++ ");")).
+Proof. vm_compute. reflexivity. Qed.
+Example ex_double_escaped : script_data_end "x<!--<script>y</script>z</script>" = Some 24%nat.
+Proof. vm_compute. reflexivity. Qed.
+Example ex_never_closed : script_data_end "x<!--<script>y</script>" = None.
 Proof. vm_compute. reflexivity. Qed.
